@@ -77,6 +77,11 @@ type World struct {
 	Flags      map[string]bool
 	Case       *Case
 	lockHeld   bool
+
+	// C07
+	NoCasOracle bool // nbsrefs: the C02 register rules are C02's business; only "a rejected write leaves the root alone" is kept
+	RefsOracle  bool
+	UnsafeAdded map[int]bool // chunks that entered through AddTableFilesToManifest while the store was uninitialised (root = 0)
 }
 
 func NewWorld(e *hx.Env, m *hx.Model, dir, mode string, defs []ChunkDef) *World {
@@ -205,6 +210,13 @@ func (w *World) disagree(op Op, impl, model, note string) {
 }
 
 func (w *World) violate(key, what string) {
+	if w.NoCasOracle && strings.HasPrefix(key, "C02/") {
+		if key != "C02/root-moved-without-successful-commit" {
+			w.E.Rep.Hit("c02-oracle-skipped:" + key)
+			return
+		}
+		key = "C07/root-moved-without-successful-commit"
+	}
 	w.E.Rep.Violate(key, what, w.Case)
 }
 
@@ -269,11 +281,20 @@ func (w *World) observe(kind string, cur, last int, what string) {
 	if !ok {
 		return
 	}
+	if w.RefsOracle {
+		w.CheckClosure(what)
+	}
 	prev := w.Roots[len(w.Roots)-1]
 	switch kind {
 	case "cas-ok":
 		if prev != last {
-			w.violate("C02/commit-succeeded-on-wrong-last", fmt.Sprintf("%s returned true but the persisted root before it was %d, not last=%d", what, prev, last))
+			key := "C02/commit-succeeded-on-wrong-last"
+			if prev == cur {
+				// the root the caller wanted to install was already installed (by somebody else)
+				key = "C02/commit-true-root-already-cur"
+				w.E.Rep.Hit("commit:true-while-root-already-cur")
+			}
+			w.violate(key, fmt.Sprintf("%s returned true but the persisted root before it was %d, not last=%d", what, prev, last))
 		}
 		if r != cur {
 			w.violate("C02/acked-root-not-visible", fmt.Sprintf("%s returned true but a fresh open sees root %d, not cur=%d", what, r, cur))
@@ -571,6 +592,7 @@ func (w *World) doCommit(op *Op, st *nbs.NomsBlockStore) string {
 				if w.Mode != "journal" && w.Roots[len(w.Roots)-1] != op.Last {
 					w.E.Rep.Hit("commit:shortcut-true-while-root!=last")
 					w.Flags["shortcut-stale"] = true
+					w.violate("C02/commit-shortcut-true-on-stale-last", fmt.Sprintf("%s returned true (nothing novel, cur == last) while the persisted root is %d", fmtOp(*op), w.Roots[len(w.Roots)-1]))
 				}
 				w.observe("none", 0, 0, fmtOp(*op))
 			}
@@ -664,13 +686,89 @@ func (w *World) doAddTables(op *Op, st *nbs.NomsBlockStore) string {
 		}
 		files[name] = n
 	}
+	upRoot, _ := st.Root(w.Ctx)
 	err := st.AddTableFilesToManifest(w.Ctx, files, w.getAddrs)
 	res := ErrClass(err)
+	if err == nil && upRoot.IsEmpty() {
+		if w.UnsafeAdded == nil {
+			w.UnsafeAdded = map[int]bool{}
+		}
+		for _, t := range op.Tables {
+			for _, id := range t {
+				w.UnsafeAdded[id] = true
+			}
+		}
+		w.E.Rep.Hit("addtables:into-uninitialized-store")
+	}
+	if err == nil {
+		for _, t := range op.Tables {
+			for _, id := range t {
+				w.Acked[id] = true // AddTableFilesToManifest is itself a manifest update: the files' chunks are persisted
+			}
+		}
+	}
 	w.compare(*op, fmt.Sprintf("addtables %d %s", op.H, tablesArg(op.Tables)), res)
 	if w.top() {
 		w.observe("none", 0, 0, fmtOp(*op))
 	}
 	return res
+}
+
+// CheckClosure is the C07 oracle: from a fresh open of the directory, every address reachable from Root()
+// through the reference graph (the refs the getAddrs callback reports) is present.
+func (w *World) CheckClosure(what string) {
+	if w.Mode == "journal" {
+		return
+	}
+	st, err := w.openStore(1 << 16)
+	if err != nil {
+		w.violate("C07/fresh-open-fails", "fresh open fails: "+err.Error())
+		return
+	}
+	defer st.Close()
+	r, err := st.Root(w.Ctx)
+	if err != nil {
+		return
+	}
+	root := w.IDOf(r)
+	if root == 0 {
+		return
+	}
+	seen := map[int]bool{}
+	stack := []int{root}
+	parent := map[int]int{}
+	for len(stack) > 0 {
+		a := stack[len(stack)-1]
+		stack = stack[:len(stack)-1]
+		if seen[a] {
+			continue
+		}
+		seen[a] = true
+		ok, err := st.Has(w.Ctx, w.H(a))
+		if err != nil || !ok {
+			key := "C07/reachable-chunk-missing"
+			if p, okp := parent[a]; okp && w.UnsafeAdded[p] {
+				key = "C07/addtablefiles-into-uninitialized-store-skips-refcheck"
+			} else if !okp && w.UnsafeAdded[a] {
+				key = "C07/addtablefiles-into-uninitialized-store-skips-refcheck"
+			}
+			w.violate(key, fmt.Sprintf("after %s: persisted root %d reaches address %d (referenced by %d) which a fresh open does not have", what, root, a, parent[a]))
+			return
+		}
+		w.E.Rep.Hit("closure:visited")
+		for _, c := range w.Defs[a].Refs {
+			if !seen[c] {
+				if _, okp := parent[c]; !okp {
+					parent[c] = a
+				}
+				stack = append(stack, c)
+			}
+		}
+	}
+	if len(seen) > 1 {
+		w.E.Rep.Hit("closure:nontrivial-walk")
+		w.Flags["closure-walk"] = true
+	}
 }
 
 // CloseAll closes every handle (end of case).
